@@ -95,8 +95,19 @@ def release_loops(sem, visits):
             if blk.idx not in v.blocks:
                 continue
             e = v.be.ev_call(blk.idx, blk.term)
-            if e.op != "call" or e.info not in readers or not v.be.cfg.in_loop(blk.idx):
+            if e.op != "call" or not v.be.cfg.in_loop(blk.idx):
                 continue
+            if e.info not in readers:
+                # a wrapper around the reader (e.g. `fn read_releasable(storage, id, t) -> Option<History>`): the reader call it makes,
+                # in this function's terms
+                if w.callee_body(e) is None:
+                    continue
+                from ..expr import find as _find
+                cbp = w.callee_body(e).path
+                inner = _find(w.expand(e), lambda y: y.op == "call" and y.info in readers and y.site is not None and y.site[0] == cbp)
+                if not inner:
+                    continue
+                e = inner[0]
             key = e.args[1]
             from ..expr import find
             kn = w.norm(v.resolve(key))
